@@ -10,6 +10,7 @@ A control that no longer applies (the tree moved on) is skipped, not failed.
 import glob
 import json
 import os
+import re
 import subprocess
 import sys
 from concurrent.futures import ThreadPoolExecutor
@@ -38,7 +39,7 @@ def run_one(prop, patch):
         return {"control": os.path.relpath(patch, HERE), "status": "skipped (does not apply to the current tree)"}
     if "BUILD" in txt and "violations=" not in txt:
         return {"control": os.path.relpath(patch, HERE), "status": "skipped (scratch copy did not build)"}
-    detected = p.returncode == 1 and "VIOLATION" in txt
+    detected = p.returncode == 1 and re.search(r"violations=[1-9]", txt) is not None
     return {"control": os.path.relpath(patch, HERE), "status": "detected" if detected else "NOT DETECTED"}
 
 
